@@ -132,8 +132,10 @@ def read_csv_cells(path):
 
 # --------------------------------------------------------------------------- generators
 
-LABELS = ["F", "F_a", "F_timeout", "F_x,y", 'F_"q"', "F_ 1", "Fail", "F_CANCELLED"]
-META_POOL = ["a", "b", "num", "txt", "_hidden", "loss"]
+LABELS = ["F", "F_a", "F_timeout", "F_x,y", 'F_"q"', "F_ 1", "Fail", "F_CANCELLED",
+          "F_line1\nline2", "F_cr\rx", "F_crlf\r\nend", "F_\u00e9\u2713", 'F_",\n"']
+META_POOL = ["a", "b", "num", "txt", "_hidden", "loss", "k,1", "\u00fc", 'q"k']
+TEXTS = ["abc", "a,b", "x y", 'q"r', "1.0", "l1\nl2", "cr\rx", "l1\r\nl2", "\u00e9\u2713 \u4e2d", '","', " lead", "trail ", "'s"]
 
 
 def gen_number(rng):
@@ -141,7 +143,7 @@ def gen_number(rng):
     if k < 0.3:
         return rng.randint(-5, 5)
     if k < 0.4:
-        return float(rng.randint(-3, 3))
+        return float(rng.randint(-3, 3)) + rng.choice([0.0, 0.25, 0.5, 0.5])
     if k < 0.5:
         return rng.choice([0.1 + 0.2, 1e-7, 1e22, -0.0, 2.0**-30, 123456.789, 1 / 3])
     return rng.uniform(-10, 10)
@@ -153,7 +155,7 @@ def gen_meta(rng):
     md = {}
     for k in keys:
         r = rng.random()
-        md[k] = rng.randint(0, 9) if r < 0.4 else (rng.uniform(0, 1) if r < 0.7 else rng.choice(["abc", "a,b", "x y", 'q"r', "1.0"]))
+        md[k] = rng.randint(0, 9) if r < 0.4 else (rng.uniform(0, 1) if r < 0.7 else rng.choice(TEXTS))
     return md
 
 
@@ -209,8 +211,14 @@ MALFORMED = [
 ]
 
 
-def gen_args(rng):
-    return {"x": rng.uniform(0, 1), "k": rng.randint(1, 10), "c": rng.choice(["a", "b", "c d"])}
+CHOICES = ["a", "b", "c d", "b,c", 'q"r', "l1\nl2", "cr\rx", "\u00fc\u2713"]
+
+
+def gen_args(rng, weird=False):
+    d = {"x": rng.uniform(0, 1), "k": rng.randint(1, 10), "c": rng.choice(CHOICES)}
+    if weird:  # hyperparameter names are free text for the evaluator
+        d[weird] = rng.choice(TEXTS)
+    return d
 
 
 def gen_unit_case(rng, force=None):
@@ -219,6 +227,8 @@ def gen_unit_case(rng, force=None):
     p_fail = rng.choice([0.0, 0.2, 0.5, 0.8, 1.0])
     kinds = rng.choice([["str"], ["str", "nonfin"], ["str", "nonfin", "nonfin-in-tuple"], ["nonfin-in-tuple"]])
     jobs = []
+    weird = rng.random() < 0.3  # all jobs of a search share their hyperparameter names
+    wkey = rng.choice(["a,b", 'q"n', "l\nn", "\u00fc", "sp ace"])
     for i in range(n):
         pf = p_fail
         if force == "fail-first" and i == 0:
@@ -230,7 +240,7 @@ def gen_unit_case(rng, force=None):
         else:
             raw, form = wrap_form(rng, obj)
         jobs.append({
-            "args": enc_typed(gen_args(rng)),
+            "args": enc_typed(gen_args(rng, weird=wkey if weird else False)),
             "status": "CANCELLED" if cancelled else rng.choice(["RUNNING"] * 9 + ["DONE"]),
             "meta0": enc_typed({"timestamp_submit": rng.uniform(0, 1)} if rng.random() < 0.9 else gen_meta(rng)),
             "out": enc_typed(raw), "form": form, "kind": kind,
@@ -250,7 +260,8 @@ def gen_unit_case(rng, force=None):
     preset = None
     if rng.random() < 0.05:
         preset = m
-    return {"level": "unit", "m": m, "preset": preset, "jobs": jobs, "order": order, "ops": ops}
+    return {"level": "unit", "m": m, "preset": preset, "jobs": jobs, "order": order, "ops": ops,
+            "dump_evals": rng.random() < 0.05}
 
 
 # --------------------------------------------------------------------------- classification / fingerprints
@@ -356,7 +367,7 @@ def run_unit_real(case):
             ev.num_objective = case["preset"]
         path = os.path.join(tmp, "results.csv")
         jids = [storage.create_new_job(sid) for _ in case["jobs"]]
-        obs_jobs, ready = [], []
+        obs_jobs, ready, numtext = [], [], {}
         for idx in case["order"]:
             spec = case["jobs"][idx]
             job = HPOJob(jids[idx], dec(spec["args"]), None, storage)
@@ -369,6 +380,7 @@ def run_unit_real(case):
                 obs_jobs.append({"idx": idx, "err": type(e).__name__})
                 continue
             ev._on_done(job)
+            _collect_numtext(numtext, [job.args, job.objective, job.metadata, int(jids[idx].split(".")[1])])
             obs_jobs.append({"idx": idx, "err": None, "objective": enc(job.objective), "status": job.status.name,
                              "meta": [[k, enc(v)] for k, v in job.metadata.items()],
                              "tg": enc(job.metadata["timestamp_gather"]), "id": int(jids[idx].split(".")[1])})
@@ -379,7 +391,14 @@ def run_unit_real(case):
             pos += cnt
             ev.jobs_done.extend(batch)
             try:
-                ev.dump_jobs_done_to_csv(log_dir=tmp, flush=bool(fl))
+                if case.get("dump_evals"):  # the deprecated alias
+                    import warnings
+
+                    with warnings.catch_warnings():
+                        warnings.simplefilter("ignore")
+                        ev.dump_evals(log_dir=tmp, flush=bool(fl))
+                else:
+                    ev.dump_jobs_done_to_csv(log_dir=tmp, flush=bool(fl))
             except Exception as e:
                 steps.append({"raised": f"{type(e).__name__}: {str(e)[:80]}"})
                 break
@@ -390,14 +409,44 @@ def run_unit_real(case):
                           "pending": len(ev.jobs_done)})
             prev_rows = len(body)
         pre = read_csv_cells(path)
+        raw_text = None
+        if os.path.exists(path):
+            with open(path, newline="") as f:  # same default encoding as the writer
+                raw_text = f.read()
         perr, order = (None, [])
         final = pre
         if pre:
             perr, order = pareto_step(s)
             final = read_csv_cells(path)
-        return {"jobs": obs_jobs, "steps": steps, "pre": pre, "final": final, "pareto_err": perr, "order": order}
+        return {"jobs": obs_jobs, "steps": steps, "pre": pre, "final": final, "pareto_err": perr, "order": order,
+                "raw_text": raw_text, "numtext": numtext}
     finally:
         shutil.rmtree(tmp, ignore_errors=True)
+
+
+def _collect_numtext(table, values):
+    """how Python prints the numbers that can end up in a cell: Fraction -> str(value); a rational
+    printed in two ways in one case (3 and 3.0) makes the table ambiguous -> None"""
+    for v in values:
+        if isinstance(v, dict):
+            _collect_numtext(table, list(v.values()))
+        elif isinstance(v, (tuple, list)):
+            _collect_numtext(table, list(v))
+        elif isinstance(v, (int, float, np.integer, np.floating)) and not isinstance(v, bool):
+            if isinstance(v, (float, np.floating)) and not math.isfinite(v):
+                continue
+            q = Fraction(v)
+            t = str(v)
+            if table.get(q, t) != t:
+                table[q] = None
+            else:
+                table[q] = t
+
+
+def numtext_wire(table):
+    if any(t is None for t in table.values()):
+        return None
+    return [[f"{q.numerator}/{q.denominator}", t] for q, t in table.items()]
 
 
 def unit_request(case, obs, old=False):
@@ -408,8 +457,12 @@ def unit_request(case, obs, old=False):
         o = tg[idx]
         jobs.append({"id": o.get("id", idx), "args": spec["args"]["d"], "status": spec["status"],
                      "meta0": spec["meta0"]["d"], "out": spec["out"], "tg": o.get("tg", {"n": "0/1"})})
-    return {"op": "scenario", "preset": case.get("preset"), "old": old, "jobs": jobs, "ops": case["ops"],
-            "order": obs["order"]}
+    req = {"op": "scenario", "preset": case.get("preset"), "old": old, "jobs": jobs, "ops": case["ops"],
+           "order": obs["order"]}
+    nt = numtext_wire(obs.get("numtext", {}))
+    if nt is not None and obs.get("raw_text") is not None:
+        req["numtext"], req["want_text"] = nt, True
+    return req
 
 
 ERRMAP = {"badType": ("TypeError",), "noObjective": ("ValueError",), "badMetadata": ("TypeError", "ValueError", "AttributeError")}
@@ -451,6 +504,17 @@ def compare_unit(ck, case, obs, rep):
         for r, (lo, lm) in enumerate(zip(so["new"], sm["rows"])):
             if len(lo) != len(lm) or not all(cell_matches(t, c) for t, c in zip(lo, lm)):
                 bad.append({"step": k, "line": r, "impl": lo, "model": lm})
+    # the bytes of the file before the Pareto rewrite vs the model's rendering (csv quoting, \r\n)
+    if obs.get("raw_text") is not None and len(obs["steps"]) == len(rep["steps"]) and rep["steps"] and not bad:
+        mt = rep["steps"][-1].get("text")
+        if mt is None:
+            ck.count("bytes:not-compared(ambiguous number text)")
+        elif mt != obs["raw_text"]:
+            bad.append({"bytes": "file differs from the model's rendering", "impl": obs["raw_text"][:400], "model": mt[:400]})
+        else:
+            ck.count("bytes:equal")
+            if any(ch in obs["raw_text"] for ch in ('"',)):
+                ck.count("bytes:equal,with-quoted-cells")
     # pareto step
     par = rep["pareto"]
     if obs["pre"]:
@@ -617,6 +681,8 @@ def pareto_requests(cells):
         return "missing", None
     pts, mask, bad = [], [], False
     for line in body:
+        if len(line) != len(hdr):
+            return "non-numeric", None  # ragged line: reported by the table oracle
         texts = [line[i] for i in ocols]
         flag = line[-1] == "True"
         if any(t.startswith("F") for t in texts):
@@ -664,9 +730,39 @@ def gen_search_case(rng, force=None):
             ev = "reuse"
         ncalls = rng.choice([1, 1, 1, 2] if nsearch > 1 else [1, 1, 1, 2, 3])
         searches.append({"evaluator": ev, "calls": [rng.randint(1, max(1, n // (ncalls * nsearch) + 1)) for _ in range(ncalls)]})
-    return {"level": "search", "cls": "RandomSearch", "m": m, "outs": outs, "searches": searches,
+    case = {"level": "search", "cls": "RandomSearch", "m": m, "outs": outs, "searches": searches,
             "num_workers": rng.choice([1, 1, 2, 3, 4]), "seed": rng.randint(0, 10**6),
             "profile": rng.random() < 0.15}
+    # categorical values / hyperparameter names with commas, quotes, newlines, carriage returns, unicode
+    case["choices"] = rng.sample(CHOICES, rng.randint(2, 4)) if rng.random() < 0.5 else ["a", "b", "c d"]
+    case["hp_names"] = [rng.choice(["a,b", 'q"n', "l\nn", "\u00fc", "sp ace"])] if rng.random() < 0.2 else []
+    # run-functions that really wait (ms): jobs of one batch finish at different times, some are only
+    # collected by the final gather("ALL")
+    case["delays"] = [rng.choice([0, 0, 1, 3, 6]) for _ in range(rng.randint(1, 4))] if rng.random() < 0.3 else []
+    for i, sp in enumerate(searches):
+        if i > 0 and rng.random() < (0.35 if sp["evaluator"] == "reuse" else 0.1):
+            sp["new_dir"] = True  # this Search uses another log_dir: no results.csv there
+        if rng.random() < 0.15:
+            sp["strict"] = True  # search(max_evals_strict=True)
+        if rng.random() < 0.08:
+            sp["calls"][rng.randrange(len(sp["calls"]))] = 0  # search(max_evals=0): nothing is evaluated
+    # all Search objects constructed before the first search() call (results.csv does not exist yet)
+    if nsearch > 1 and rng.random() < 0.15:
+        case["create_first"] = True
+    return case
+
+
+def gen_timeout_case(rng):
+    """a search stopped by its time budget: the jobs still running are cancelled and recorded"""
+    m = rng.choice([1, 2])
+    outs = []
+    for _ in range(rng.randint(1, 4)):
+        obj, _k = gen_objective(rng, m, 0.3, ["str"])
+        outs.append(enc_typed(obj))
+    return {"level": "search", "cls": "RandomSearch", "m": m, "outs": outs,
+            "searches": [{"evaluator": rng.choice(["fresh", "callable"]), "calls": [1], "timeout": True}],
+            "num_workers": rng.choice([1, 2, 3]), "seed": rng.randint(0, 10**6), "profile": False,
+            "choices": ["a", "b"], "hp_names": [], "delays": [rng.choice([230, 310, 420])]}
 
 
 def run_search_real(case):
@@ -680,6 +776,7 @@ def run_search_real(case):
 
     tmp = tempfile.mkdtemp(prefix="c04s_")
     outs = case["outs"]
+    delays = case.get("delays") or []
     log = {}  # (evaluator index, job id) -> what the run-function saw / returned
     counter = itertools.count()
     lock = __import__("threading").Lock()
@@ -690,14 +787,20 @@ def run_search_real(case):
                 k = next(counter)
             raw = dec(outs[k % len(outs)])
             log[(eidx, int(str(job.id).split(".")[-1]))] = {"args": dict(job.parameters), "raw_wire": outs[k % len(outs)], "k": k}
-            return raw
+            return raw, (delays[k % len(delays)] / 1000.0 if delays else 0.0)
 
         if sync:
             def run(job):
-                return body(job)
+                raw, d = body(job)
+                if d:
+                    __import__("time").sleep(d)
+                return raw
         else:
             async def run(job):
-                return body(job)
+                raw, d = body(job)
+                if d:
+                    await asyncio.sleep(d)
+                return raw
         fn = profile(run) if case.get("profile") else run
         fn._eidx = eidx
         return fn
@@ -729,11 +832,18 @@ def run_search_real(case):
         p = HpProblem()
         p.add_hyperparameter((0.0, 1.0), "x")
         p.add_hyperparameter((1, 10), "k")
-        p.add_hyperparameter(["a", "b", "c d"], "c")
+        p.add_hyperparameter(list(case.get("choices") or ["a", "b", "c d"]), "c")
+        for nm in case.get("hp_names") or []:
+            p.add_hyperparameter((0.0, 1.0), nm)
         prev_eidx, n_eval = None, 0
-        for si, spec in enumerate(_searches_of(case)):
+        specs = _searches_of(case)
+        early = bool(case.get("create_first")) and len(specs) > 1
+        cur_dir = [tmp]
+
+        def construct(si, spec):
+            nonlocal prev_eidx, n_eval
             kind = spec["evaluator"]
-            if kind == "reuse" and (prev_eidx is None or prev_eidx not in instances):
+            if kind == "reuse" and (early or prev_eidx is None or prev_eidx not in instances):
                 kind = "fresh"
             if kind == "reuse":
                 eidx, ev = prev_eidx, instances[prev_eidx]
@@ -742,23 +852,40 @@ def run_search_real(case):
                 n_eval += 1
                 fn = make_run(eidx, sync=(kind == "callable-sync"))
                 ev = fn if kind.startswith("callable") else Evaluator.create(fn, method="serial", method_kwargs={"num_workers": case["num_workers"]})
-            events.append(("new_search", "reuse" if kind == "reuse" else "fresh", kind))
-            try:
-                s = RandomSearch(p, ev, random_state=case["seed"] + si, log_dir=tmp)
-            except Exception as e:
-                err = f"{type(e).__name__}: {str(e)[:100]}"
-                events.append(("call_end", {"si": si, "ci": -1, "err": err, "cells": None, "df": None, "order": []}))
-                break
+            if spec.get("new_dir") and si > 0 and not early:
+                # a directory without results.csv (the evaluator may have dumped elsewhere before)
+                cur_dir[0] = os.path.join(tmp, f"dir{si}")
+            s = RandomSearch(p, ev, random_state=case["seed"] + si, log_dir=cur_dir[0])
             keep.append(s)
             prev_eidx = eidx
+            return s, kind
+
+        built = {}
+        if early:
+            for si, spec in enumerate(specs):
+                built[si] = construct(si, spec)
+        for si, spec in enumerate(specs):
+            try:
+                s, kind = built[si] if early else construct(si, spec)
+            except Exception as e:
+                err = f"{type(e).__name__}: {str(e)[:100]}"
+                events.append(("new_search", "fresh", spec["evaluator"], early))
+                events.append(("call_end", {"si": si, "ci": -1, "err": err, "cells": None, "df": None, "order": []}))
+                break
+            events.append(("new_search", "reuse" if kind == "reuse" else "fresh", kind, early,
+                           bool(spec.get("new_dir")) and si > 0 and not early))
             for ci, c in enumerate(spec["calls"]):
                 norders = len(npspy.orders)
                 df = None
                 try:
-                    df = s.search(max_evals=c)
+                    if spec.get("timeout"):
+                        # search until the time budget (1 s, real time) is over: running jobs are cancelled
+                        df = s.search(max_evals=-1, timeout=1)
+                    else:
+                        df = s.search(max_evals=c, max_evals_strict=bool(spec.get("strict")))
                 except Exception as e:
                     err = f"{type(e).__name__}: {str(e)[:100]}"
-                cells = read_csv_cells(os.path.join(tmp, "results.csv"))
+                cells = read_csv_cells(os.path.join(cur_dir[0], "results.csv"))
                 df_cells = None
                 if df is not None:
                     df_cells = [list(df.columns)] + [[_df_text(v) for v in row] for row in df.itertuples(index=False, name=None)]
@@ -807,11 +934,25 @@ def search_request(case, obs):
     """model input: Search constructions, dumps (jobs in the order they were handed to the dump, with
     what the run-function returned) and the Pareto step at the end of every search() call"""
     jobs, ops, marks = [], [], []
+    call_jobs, start, preset, ev_arity, cur_eidx = [], 0, None, {}, None
     for ev in obs["events"]:
         if ev[0] == "new_search":
-            ops.append({"new_search": ev[1]})
+            op = {"new_search": ev[1]}
+            if len(ev) > 3 and ev[3]:
+                op["early"] = True
+            if len(ev) > 4 and ev[4]:
+                op["no_file"] = True
+            ops.append(op)
+            start, cur_eidx = len(jobs), None
+            preset = "pending"  # decided at the first dump: arity the evaluator instance already knows
         elif ev[0] == "dump":
             _, eidx, new, fl = ev
+            if preset == "pending":
+                preset = ev_arity.get(eidx)
+            for j in new:
+                o = expected_objective(dec(obs["log"][(eidx, j["id"])]["raw_wire"])) if (eidx, j["id"]) in obs["log"] else None
+                if eidx not in ev_arity and o is not None and not is_failure_obj(o):
+                    ev_arity[eidx] = len(o) if isinstance(o, (tuple, list)) else 1
             for j in new:
                 lg = obs["log"].get((eidx, j["id"]))
                 if lg is None:
@@ -819,7 +960,8 @@ def search_request(case, obs):
                 meta = j["meta"]
                 tg = dict((k, v) for k, v in meta).get("timestamp_gather", {"n": "0/1"})
                 ts = [[k, v] for k, v in meta if k == "timestamp_submit"]
-                jobs.append({"id": j["id"], "args": j["args"]["d"], "status": "RUNNING", "meta0": ts,
+                jobs.append({"id": j["id"], "args": j["args"]["d"],
+                             "status": "RUNNING" if j["status"] == "DONE" else j["status"], "meta0": ts,
                              "out": _model_out(case, lg, meta), "tg": tg})
             ops.append([len(new), fl])
         else:
@@ -829,6 +971,8 @@ def search_request(case, obs):
                 marks.append(len(ops) - 1)
             else:
                 marks.append(None)
+            call_jobs.append((list(jobs[start:]), None if preset == "pending" else preset))
+    obs["call_jobs"] = call_jobs
     return {"op": "scenario", "preset": None, "jobs": jobs, "ops": ops, "order": []}, marks
 
 
@@ -921,7 +1065,8 @@ def _finished_unit(case, obs):
 def _job_record(case, obs, eidx, j):
     lg = obs["log"][(eidx, j["id"])]
     raw = dec(lg["raw_wire"])
-    return {"id": j["id"], "args": lg["args"], "raw": raw, "status": "DONE", "meta": returned_meta(raw)}
+    # terminal status as the evaluator reports it (DONE, or CANCELLED in a timed-out search: C14's subject)
+    return {"id": j["id"], "args": lg["args"], "raw": raw, "status": j.get("status", "DONE"), "meta": returned_meta(raw)}
 
 
 def _unit_objs(case):
@@ -965,6 +1110,11 @@ def check_unit(ck, d, case, collect):
             viol += oracle_table(obs["pre"], fin, case["m"])
             if obs["pareto_err"] is not None:
                 viol.append(("pareto-step-raises", obs["pareto_err"]))
+            elif not viol and obs["final"] != obs["pre"]:
+                # the file rewritten by the Pareto step is still the table of the same evaluations
+                viol += [(c + "-after-pareto-rewrite", dt) for c, dt in oracle_table(obs["final"], fin, case["m"])]
+    if viol:
+        tags += _text_tags(case)
     collect.append(("unit", case, obs, tags, viol))
     return obs
 
@@ -1027,18 +1177,93 @@ def check_search(ck, d, case, collect):
     tags = classify(viol_objs if viol else objs_all, case["m"], midflush)
     if reused:
         tags += ",reused-evaluator"
+    if viol:
+        tags += _text_tags(case)
+        if case.get("create_first") and len(searches) > 1:
+            tags += ",objects-created-before-first-search"
+        if any(sp.get("new_dir") for sp in searches[1:]) and reused:
+            tags += ",log_dir-without-results-file"
     nontrivial = len(objs_all) >= 2 and any(is_failure_obj(o) for o in objs_all) and not all(is_failure_obj(o) for o in objs_all)
     ck.case(case, nontrivial=nontrivial)
     ck.count("search:" + tags)
     ck.count(f"search:objects={len(searches)}")
     for sp, kd in zip(searches, kinds_used):
-        ck.count("search:evaluator=" + kd)
+        ck.count("search:evaluator=" + kd + (",new-log_dir" if sp.get("new_dir") else ""))
         ck.count(f"search:calls={len(sp['calls'])}")
     ck.count(f"search:workers={case['num_workers']}")
     ck.count(f"search:finished={min(len(objs_all), 9)}")
     obs["calls"] = calls
     collect.append(("search", case, obs, tags, viol))
     return obs
+
+
+def _strings_of(w):
+    if not isinstance(w, dict):
+        return
+    if "s" in w:
+        yield w["s"]
+    for x in w.get("l", []):
+        yield from _strings_of(x)
+    for k, x in w.get("d", []):
+        yield k
+        yield from _strings_of(x)
+
+
+def _case_strings(case):
+    if case["level"] == "unit":
+        for j in case["jobs"]:
+            for part in ("args", "meta0", "out"):
+                yield from _strings_of(j[part])
+    else:
+        for w in case["outs"]:
+            yield from _strings_of(w)
+        yield from case.get("choices", [])
+        yield from case.get("hp_names", [])
+
+
+def _text_tags(case):
+    """input-class predicates about the text of the values (only reported with a violation)"""
+    import re
+
+    strs = list(_case_strings(case))
+    tags = ""
+    if any(re.search(r"\r(?!\n)", t) for t in strs):
+        tags += ",lone-carriage-return-in-value"
+    elif any(ch in t for t in strs for ch in '\n\r'):
+        tags += ",newline-in-value"
+    elif any(ch in t for t in strs for ch in ',"'):
+        tags += ",comma-or-quote-in-value"
+    elif any(ord(ch) > 127 for t in strs for ch in t):
+        tags += ",non-ascii-value"
+    return tags
+
+
+def _sanitize_wire(w, level):
+    """replace text by plainer text: level 0 drops lone CR, 1 drops newlines, 2 everything special"""
+    import re
+
+    def fix(t):
+        if level >= 0:
+            t = re.sub(r"\r(?!\n)", "", t)
+        if level >= 1:
+            t = t.replace("\r", "").replace("\n", "")
+        if level >= 2:
+            t = "".join(ch for ch in t if ch.isascii() and (ch.isalnum() or ch == "_")) or "v"
+        return t
+
+    if not isinstance(w, dict):
+        return w
+    w = dict(w)
+    if "s" in w:
+        keepF = w["s"].startswith("F")
+        w["s"] = fix(w["s"])
+        if keepF and not w["s"].startswith("F"):
+            w["s"] = "F" + w["s"]
+    if "l" in w:
+        w["l"] = [_sanitize_wire(x, level) for x in w["l"]]
+    if "d" in w:
+        w["d"] = [[fix(k) if level < 2 else k, _sanitize_wire(x, level)] for k, x in w["d"]]
+    return w
 
 
 def _flush_before_success(case, obs):
@@ -1100,12 +1325,40 @@ def _process(ck, collect):
                     if pr["pts"]:
                         preqs.append(pr)
                         pidx.append(n)
+    # the verified checker (theorem C04_checker) on the real file content
+    creqs, cidx = [], []
+    for n, (level, case, obs, tags, viol) in enumerate(collect):
+        if level == "unit":
+            if case.get("preset") in (None, case["m"]) and obs["pre"] and not any("raised" in st for st in obs["steps"]):
+                creqs.append(check_request(obs["pre"], reqs[idx.index(n)]["jobs"], case.get("preset")))
+                cidx.append((n, None))
+        else:
+            ends = [ev[1] for ev in obs["events"] if ev[0] == "call_end"]
+            for k, (info, (cj, preset)) in enumerate(zip(ends, obs.get("call_jobs", []))):
+                if info["err"] is None and info["cells"] and cj:
+                    creqs.append(check_request(info["cells"], cj, preset))
+                    cidx.append((n, k))
     with ck.driver() as d:
         reps = d.ask_all(reqs)
         preps = d.ask_all(preqs)
+        creps = d.ask_all(creqs)
     for n, rep in zip(pidx, preps):
         if not rep["spec"]:
             collect[n][4].append(("pareto-not-exact", None))
+    table_clauses = ("missing-table", "duplicate-columns", "no-job_id-column", "ragged-line", "rows-not-in-bijection-with-jobs",
+                     "objective-columns", "configuration-column-missing", "configuration-cell", "failure-string-cell",
+                     "nonfinite-not-marked", "objective-cell", "status-cell", "metadata-cell")
+    seen_reject = set()
+    for (n, k), rep in zip(cidx, creps):
+        level, case, obs, tags, viol = collect[n]
+        ck.count("checker:" + ("accepts" if rep["check"] else "rejects"))
+        py_rejects = any(c.split("-after-")[0] in table_clauses for c, _ in viol)
+        if not rep["check"] and not py_rejects and n not in seen_reject:
+            seen_reject.add(n)
+            viol.append(("verified-checker-rejects-table", {"call": k, "why": rep.get("why"), "arity": rep.get("arity")}))
+        elif rep["check"] and py_rejects and k is None:
+            ck.mismatch(_case_out(case), {"oracles": "the Python table oracle rejects a table the verified checker accepts",
+                                          "python": [c for c, _ in viol]})
     for n, rep in zip(idx, reps):
         level, case, obs, tags, viol = collect[n]
         bad = compare_unit(ck, case, obs, rep) if level == "unit" else compare_search(ck, case, obs, rep, obs["marks"])
@@ -1114,6 +1367,24 @@ def _process(ck, collect):
     for level, case, obs, tags, viol in collect:
         for clause, detail in _dedupe(viol):
             ck.fail(fingerprint(level, clause, tags), f"{clause} ({level} level, {tags})", _case_out(case), detail)
+
+
+def check_request(cells, jobs, preset):
+    """`checkTable` input: header names, cells as text (+ exact rational when the text is a number),
+    the jobs as the model request describes them (what the run-function returned)"""
+    hdr, body = cells[0], cells[1:]
+    if hdr and hdr[-1] == "pareto_efficient":
+        hdr, body = hdr[:-1], [line[:-1] if len(line) == len(cells[0]) else line for line in body]
+
+    def cell(t):
+        try:
+            q = text_to_fraction(t)
+            return {"t": t, "q": f"{q.numerator}/{q.denominator}"}
+        except (ValueError, OverflowError):
+            return {"t": t, "q": None}
+
+    return {"op": "check_table", "tol": "1/1000000000000", "hdr": hdr, "rows": [[cell(t) for t in line] for line in body],
+            "jobs": jobs, "preset": preset}
 
 
 def _dedupe(viol):
@@ -1144,6 +1415,18 @@ def shrink(case, still_fails):
     remaining output is replaced by the simplest one of its class when the failure persists"""
     cur = _shrink_delete(case, still_fails)
     m = cur["m"]
+    for level in (2, 1, 0):  # plainer text wherever the failure does not depend on it
+        if cur["level"] == "unit":
+            cand = dict(cur, jobs=[dict(j, args=_sanitize_wire(j["args"], level), meta0=_sanitize_wire(j["meta0"], level),
+                                        out=_sanitize_wire(j["out"], level)) for j in cur["jobs"]])
+        else:
+            cand = dict(cur, outs=[_sanitize_wire(w, level) for w in cur["outs"]])
+            if level == 2:
+                cand["choices"] = ["a", "b"]
+                cand["hp_names"] = []
+        if cand != cur and still_fails(cand):
+            cur = cand
+            break
     if cur["level"] == "unit":
         for i, j in enumerate(cur["jobs"]):
             c = _canonical_out(j["out"], m)
@@ -1240,6 +1523,15 @@ def _shrink_delete(case, still_fails):
                 cands.append(dict(cur, num_workers=1))
             if cur.get("profile"):
                 cands.append(dict(cur, profile=False))
+            if cur.get("create_first"):
+                cands.append(dict(cur, create_first=False))
+            if cur.get("delays"):
+                cands.append(dict(cur, delays=[]))
+            for i in range(len(ss)):
+                if ss[i].get("strict"):
+                    cands.append(dict(cur, searches=ss[:i] + [dict(ss[i], strict=False)] + ss[i + 1:]))
+                if ss[i].get("new_dir"):
+                    cands.append(dict(cur, searches=ss[:i] + [dict(ss[i], new_dir=False)] + ss[i + 1:]))
             for i, w in enumerate(cur["outs"]):
                 raw = dec(w)
                 o = expected_objective(raw)
@@ -1286,6 +1578,44 @@ def _pareto_oracle(collect):
                 viol.append(("pareto-failed-row-flagged", None))
 
 
+def part_csv(ck, raw_texts):
+    """the CSV text layer: csv.writer vs `renderFile`, csv.reader vs `parseFile` (generated cells with
+    commas, quotes, CR, LF, CRLF, unicode; arbitrary character soup for the reader; the real files)"""
+    import io
+
+    rng = ck.rng
+    alphabet = ["a", "b", " ", ",", '"', "\r", "\n", "\r\n", "\u00e9", "\u2713", "'", ";", "\t", "1", "."]
+    wcases, rcases = [], []
+    for _ in range(ck.pick(150, 1500)):
+        rows = [["".join(rng.choice(alphabet) for _ in range(rng.randint(0, 5))) for _ in range(rng.randint(1, 4))]
+                for _ in range(rng.randint(1, 4))]
+        wcases.append(rows)
+    for _ in range(ck.pick(150, 1500)):
+        rcases.append("".join(rng.choice(alphabet) for _ in range(rng.randint(0, 14))))
+    rcases += [t for t in raw_texts[: ck.pick(100, 1000)] if t]
+    reqs = [{"op": "csvrender", "rows": rows} for rows in wcases] + [{"op": "csvparse", "text": t} for t in rcases]
+    with ck.driver() as d:
+        reps = d.ask_all(reqs)
+    for rows, rep in zip(wcases, reps[: len(wcases)]):
+        b = io.StringIO(newline="")
+        csv.writer(b).writerows(rows)
+        case = {"level": "csv-writer", "rows": rows}
+        ck.case(case, nontrivial=any(ch in c for r in rows for c in r for ch in ',"\r\n'))
+        ck.count("csv:writer")
+        if rep["text"] != b.getvalue():
+            ck.mismatch(case, {"impl": b.getvalue(), "model": rep["text"]})
+        back = list(csv.reader(io.StringIO(b.getvalue(), newline="")))
+        if back != rows:
+            ck.fail(f"{PROP}|csv-round-trip|csv.writer/csv.reader|cells", "csv.reader(csv.writer(cells)) != cells", case, {"back": back})
+    for t, rep in zip(rcases, reps[len(wcases):]):
+        got = list(csv.reader(io.StringIO(t, newline="")))
+        case = {"level": "csv-reader", "text": t}
+        ck.case(case, nontrivial='"' in t)
+        ck.count("csv:reader")
+        if rep["rows"] != got:
+            ck.mismatch(case, {"impl": got, "model": rep["rows"]})
+
+
 def corpus_cases():
     d = VERIF / "corpus" / PROP
     out = []
@@ -1297,22 +1627,28 @@ def corpus_cases():
 
 
 def run(ck):
-    ck.rule = ("unit: 1-8 constructed HPOJobs (six return forms x success / 'F..' / nan / +-inf / nan-in-tuple, "
-               "varying metadata key sets, shuffled finishing order, CANCELLED jobs) dumped in batches of 1-4 with "
-               "hold / flush / mid-run flush / preset num_objective; search: histories of 1-3 Search objects (RandomSearch) on one log_dir, each with a fresh "
-               "evaluator / a plain async or sync callable / the previous Search's Evaluator instance, 1-3 search() calls each, scripted outputs, "
-               "1-3 calls on one log_dir, 1-4 serial workers, optional @profile; malformed outputs go to the "
-               "standardize_output stream; non-trivial = at least 2 finished jobs with both a failure and a success")
+    ck.rule = ("unit: 1-8 constructed HPOJobs (six return forms x success / 'F..' / nan / +-inf / nan-in-tuple, varying metadata "
+               "key sets, shuffled finishing order, CANCELLED jobs; hyperparameter names, categorical values, failure labels, metadata "
+               "keys and values with commas, quotes, LF, lone CR, CRLF, non-ASCII) dumped in batches of 1-4 with hold / flush / mid-run "
+               "flush / preset num_objective / the deprecated dump_evals; search: histories of 1-3 Search objects (RandomSearch) on one "
+               "log_dir, each with a fresh evaluator / a plain async or sync callable / the previous Search's Evaluator instance (or all "
+               "constructed before the first call), 1-3 search() calls each (max_evals 0 included, max_evals_strict, a few timed-out "
+               "searches), scripted outputs, run-functions that wait some ms, 1-4 serial workers, optional @profile; csv: random cell "
+               "grids through csv.writer and random character soup through csv.reader; malformed outputs go to the standardize_output "
+               "stream; non-trivial = at least 2 finished jobs with both a failure and a success")
     ck.assumptions = [
         "ints returned as scalar objectives are < 2^53 in magnitude (float(output) is then exact)",
         "tuple/list objectives have >= 2 components and one arity per search (the property's quantifier)",
         "metadata given as a list of pairs, bool/bytes objectives, empty metadata keys are not generated",
         "np.argsort inside non_dominated_set returns a permutation (observed and passed to the model)",
-        "csv module quoting and repr(float) round trip; pandas read_csv/to_csv within 1e-12 relative (MOO rewrite)",
+        "str(number) (repr(float), decimal int) is observed and passed to the model as the text of numeric cells; a case in "
+        "which one rational is printed in two ways (3 and 3.0) is compared cell by cell but not byte by byte",
+        "pandas read_csv/to_csv within 1e-12 relative (multi-objective rewrite); the rewritten file is compared cell by cell",
+        "terminal statuses of timed-out searches (CANCELLED) are taken from the evaluator (C14's subject)",
     ]
     ck.trusted_extra = [
-        "Col.name (p:/m:/objective_ prefixes) is injective — column name spaces are structured in the model",
         "C11 theorems (Props/C11.lean) for the pareto_efficient column",
+        "the driver's parse of header names into columns is untrusted: checkTable re-renders and compares (C04_header_parse_unique)",
     ]
     rng = ck.rng
     collect = []
@@ -1336,6 +1672,9 @@ def run(ck):
     for t in range(n_search):
         force = "fail-first" if t % 6 == 0 else None
         check_search(ck, None, gen_search_case(rng, force), collect)
+    for t in range(ck.pick(2, 12)):
+        ck.count("search:timeout")
+        check_search(ck, None, gen_timeout_case(rng), collect)
     # standardize_output, real vs model
     from deephyper.evaluator import HPOJob
     import copy
@@ -1359,6 +1698,7 @@ def run(ck):
         elif got["err"] not in ERRMAP[rep["err"]]:
             ck.mismatch(case, {"impl": got, "model": rep})
     _process(ck, collect)
+    part_csv(ck, [obs.get("raw_text") for level, case, obs, tags, viol in collect if level == "unit"])
     _shrink_failures(ck)
 
 
